@@ -13,6 +13,7 @@ import (
 	"sort"
 	"strings"
 	"sync"
+	"time"
 
 	openapi_v2 "github.com/google/gnostic-models/openapiv2"
 	"google.golang.org/protobuf/proto"
@@ -1088,21 +1089,33 @@ func c16CaseTerm(seq c16Seq, res c16SeqRes) (string, error) {
 // ---------------------------------------------------------------- run
 
 func runC16(r *Run, rng *Rng, tier string) error {
-	nSeq, rounds := 192, 6
+	nSeq, rounds := 192, 4 // rounds = number of -race processes (2 rounds each)
 	if tier == "thorough" {
-		nSeq, rounds = 3000, 120
+		nSeq, rounds = 3000, 90
 	}
 	r.Meta.Rule = "state machine: sequences of 3-11 operations (SetSchema / IsNamespaceScoped / IsCertainlyClusterScoped / SchemaForResourceType / GetSchemaVersion / " +
 		"ResetOpenAPI / SuppressBuiltInSchemaUse / AddSchema / whole krusty builds of generated trees with optional openapi field, base, SMP patches, namespace) " +
 		"over 0-3 generated custom schemas (valid JSON/YAML or rejected), each sequence from a fresh state; after every step outcome class, answer and a hook snapshot " +
 		"are compared with the model. non-trivial = the sequence initialised a schema. " +
 		"race search: 2-16 default-schema trees concurrently under -race, each concurrent output compared with the tree built alone"
-	r.shard = 48
+	r.shard = 24
+	t0 := time.Now()
 	hdr, err := c16Header()
 	if err != nil {
 		return err
 	}
 	r.header = hdr
+	// ---- (b) race search on the implementation: separate processes, runs while the state-machine children run
+	raceRng := rng.Fork()
+	rr := NewRun("C16", tier, 0, "", "")
+	raceDone := make(chan error, 1)
+	t1 := time.Now()
+	var raceSecs float64
+	go func() {
+		e := c16RaceSearch(rr, raceRng, rounds, tier)
+		raceSecs = time.Since(t1).Seconds()
+		raceDone <- e
+	}()
 	// ---- (a) state machine correspondence
 	seqs := []c16Seq{}
 	for _, s := range loadCorpus16() {
@@ -1111,12 +1124,13 @@ func runC16(r *Run, rng *Rng, tier string) error {
 	for i := 0; i < nSeq; i++ {
 		seqs = append(seqs, genSeq16(rng.Fork()))
 	}
-	nproc := runtime.NumCPU()
-	if nproc > 12 {
-		nproc = 12
+	nproc := runtime.NumCPU() / 2
+	if nproc > 8 {
+		nproc = 8
 	}
 	results, err := c16RunChildren(seqs, nproc)
 	if err != nil {
+		<-raceDone
 		return err
 	}
 	for i, seq := range seqs {
@@ -1146,8 +1160,23 @@ func runC16(r *Run, rng *Rng, tier string) error {
 		}
 		r.AddCase(term, seq, nontrivial)
 	}
-	// ---- (b) race search on the implementation
-	return c16RaceSearch(r, rng.Fork(), rounds, tier)
+	r.Meta.Notes = append(r.Meta.Notes, fmt.Sprintf("state-machine part: %d sequences in %.1fs", len(seqs), time.Since(t0).Seconds()))
+	err = <-raceDone
+	r.Meta.Notes = append(r.Meta.Notes, fmt.Sprintf("race search (concurrent with the state-machine part): %.1fs", raceSecs))
+	// merge the race search's counters and violations
+	for dim, m := range rr.Meta.Distribution {
+		for k, v := range m {
+			for i := 0; i < v; i++ {
+				r.Count(dim, k)
+			}
+		}
+	}
+	for _, v := range rr.Meta.Violations {
+		r.Violation(v)
+	}
+	r.Meta.Evaluations += rr.Meta.Evaluations
+	r.Meta.DistinctNontriv += rr.Meta.DistinctNontriv
+	return err
 }
 
 func c16FieldKind(ver *string, schema int) string {
